@@ -160,23 +160,27 @@ def coerceEnum (cls : String) (members : List String) : Val → Except Err Val
 def scopeV (s : String) : Val := .enum "CacheScope" s
 def scopeC (s : String) : CVal := .enum "CacheScope" s
 
+/-- `if "cache" in d: v = d.pop("cache"); d["cache_scope"] = BACKEND if v else CSE` -/
+def normCache (d : Dict Val) : Except Err (Dict Val) :=
+  match d.lookup "cache" with
+  | some v =>
+    match v.truthy with
+    | .ok b => .ok (dset "cache_scope" (scopeV (if b then "BACKEND" else "CSE")) (dpop "cache" d))
+    | .error e => .error e
+  | none => .ok d
+
+/-- `if key in d: d[key] = EnumClass(d[key])` -/
+def normEnum (key cls : String) (members : List String) (d : Dict Val) : Except Err (Dict Val) :=
+  match d.lookup key with
+  | some v =>
+    match coerceEnum cls members v with
+    | .ok e => .ok (dset key e d)
+    | .error e => .error e
+  | none => .ok d
+
 /-- the loop body of `Task._validate` over one options dict -/
-def normalize (d : Dict Val) : Except Err (Dict Val) := do
-  let d1 ← match d.lookup "cache" with
-    | some v => do
-      let b ← v.truthy
-      pure (dset "cache_scope" (scopeV (if b then "BACKEND" else "CSE")) (dpop "cache" d))
-    | none => pure d
-  let d2 ← match d1.lookup "cache_scope" with
-    | some v => do
-      let e ← coerceEnum "CacheScope" scopeMembers v
-      pure (dset "cache_scope" e d1)
-    | none => pure d1
-  match d2.lookup "check_valid" with
-    | some v => do
-      let e ← coerceEnum "CacheCheckValid" checkValidMembers v
-      pure (dset "check_valid" e d2)
-    | none => pure d2
+def normalize (d : Dict Val) : Except Err (Dict Val) :=
+  normCache d >>= normEnum "cache_scope" "CacheScope" scopeMembers >>= normEnum "check_valid" "CacheCheckValid" checkValidMembers
 
 /-- `Task._validate`: both dicts are normalised; `prov` is exported automatically -/
 def validate (t : TaskV) : Except Err TaskV := do
@@ -263,8 +267,12 @@ def evalOptions (useCache : Bool) (p : Option JobInfo) (c : Call) : Dict CVal :=
   if recProv e then e else dset "cache_scope" (scopeC "NONE") e
 
 /-- `Job.__init__`: `task._export_options | expr._export_options | parent_job.export_options` -/
+def parentExports : Option JobInfo → List String
+  | some p => p.exports
+  | none => []
+
 def exportsStep (p : Option JobInfo) (c : Call) : List String :=
-  c.reg.exports ++ c.var.exports ++ (match p with | some p => p.exports | none => [])
+  c.reg.exports ++ c.var.exports ++ parentExports p
 
 def jobStep (useCache : Bool) (p : Option JobInfo) (c : Call) : JobInfo :=
   { evalOpts := evalOptions useCache p c, exports := exportsStep p c }
